@@ -416,6 +416,8 @@ func c02OneCasePast(st *Store, es []entrySpec, how string, fanout int, nonMember
 	for _, e := range es {
 		want[e.Name] = e.Cid
 	}
+	// one store in five is a trusted one that hands out its receive buffer and reuses it for the next block
+	st.Trusted, st.Recycle = len(es)%5 == 1, len(es)%5 == 1
 	ls := st.LinkSystem()
 	st.RequireSession = len(es)%3 == 0 // (the store serves only loads that carry the request's context)
 	st.HonorCtx = true                 // (and refuses loads whose context is already done)
@@ -424,6 +426,7 @@ func c02OneCasePast(st *Store, es []entrySpec, how string, fanout int, nonMember
 		if err != nil {
 			return depth, sharded, fmt.Errorf("reify (%s): %v", reifier, err)
 		}
+		st.RecycleNow()
 		hist := ""
 		if past != nil {
 			hist = past(st, dir, root)
